@@ -36,6 +36,7 @@ type c02tpl struct {
 var c02exprs = []c02tpl{
 	{"a + b", true}, {"a - b", true}, {"a * b", true}, {"a / b", true}, {"a + 3", true}, {"a - 3", true}, {"3 + a", true}, {"a % b", false},
 	{`int(a) + m["k"]`, false}, {"int(a) + s[1]", false}, {"int(a) + o.n", false}, {"o.Get(int(a))", false}, {"id(int(a))", false}, {"G + int(a)", false},
+	{"a /\n\t\tb", true}, {"a +\n\t\tb", true}, {"a *\n\t\tb", true}, {"a -\n\t\tb", true}, {"boom(\n\t\tint(a))", false}, {"o.Boom(\n\t\tint(a))", false}, {"s[int(a)]", false}, {"o.s[int(b)+\n\t\t1]", false},
 	{"int(a) + o.s[1]", false}, {`int(a) + o.m["k"]`, false}, {`m["k"] + s[1]`, false}, {"o.n + o.n", false}, {"int(a) + fm[0.5]", false}, {"s[len(s)-1]", false}, {"int(b) - 0", false}, {"o.p.n + 1", false},
 }
 
@@ -102,6 +103,20 @@ func id(a int) int {
 	return a
 }
 
+func boom(a int) int {
+	if a == 9 {
+		panic("boom")
+	}
+	return a
+}
+
+func (o *O) Boom(a int) int {
+	if a == 9 {
+		panic("Boom")
+	}
+	return a
+}
+
 `
 
 func c02indent(s, ind string) string {
@@ -137,7 +152,7 @@ func corpusFusion() []cItem {
 		tn := c4name[t]
 		fn := fmt.Sprintf("func %s(a %s, b %s, c bool) int {\n\to := &O{n: 7, m: map[string]int{\"k\": 4}, s: []int{1, 2, 3}, p: &P{n: 9}}\n\tm := map[string]int{\"k\": 4}\n\tfm := map[float64]int{0.5: 6}\n\ts := []int{1, 2, 3}\n\tr := 0\n%s\treturn r*100000 + int(a)*1000 + o.n*100 + m[\"k\"]*10 + s[1] + o.p.n + fm[0.5] + len(s) + o.s[1] + G\n}\n", name, tn, tn, c02indent(body, "\t"))
 		funcs = append(funcs, fn)
-		vals := [][2]float64{{5, 3}, {9, 1}, {100, 7}}
+		vals := [][2]float64{{5, 3}, {9, 1}, {100, 7}, {5, 0}, {1, 2}}
 		switch t {
 		case c4i8:
 			vals = append(vals, [2]float64{127, 1}, [2]float64{-128, -1}, [2]float64{-7, 2})
